@@ -19,6 +19,8 @@ func main() {
 		cmdVerify(os.Args[2:])
 	case "check":
 		cmdCheck(os.Args[2:])
+	case "sweep":
+		cmdSweep(os.Args[2:])
 	case "ssa":
 		cmdSSA(os.Args[2:])
 	default:
@@ -68,6 +70,9 @@ func cmdVerify(args []string) {
 	obFilter := fs.String("ob", "", "only solve obligations whose name contains this")
 	fs.Parse(args)
 	keepSMT = *keep
+	if sd := os.Getenv("VERIF_SEED"); sd != "" {
+		fmt.Sscanf(sd, "%d", &globalSeed)
+	}
 	t0 := time.Now()
 	P, err := LoadProgram(*dir, strings.Split(*pkg, ","))
 	if err != nil {
@@ -185,3 +190,99 @@ func cmdVerify(args []string) {
 	}
 }
 
+
+// cmdSweep: zero-annotation safety sweep over all functions defined in the given files.
+func cmdSweep(args []string) {
+	fs := flag.NewFlagSet("sweep", flag.ExitOnError)
+	dir := fs.String("dir", "/repo", "module directory")
+	pkg := fs.String("pkg", ".", "package pattern")
+	files := fs.String("files", "", "comma separated file names (base names); empty = all")
+	cdirs := fs.String("contracts", "/verif/contracts,/verif/trusted", "contract roots")
+	timeout := fs.Int("timeout", 5, "solver timeout (s)")
+	workers := fs.Int("j", 8, "parallel obligations")
+	out := fs.String("out", "/tmp/gocv-sweep", "SMT output directory")
+	verbose := fs.Bool("v", false, "print failing obligations")
+	fs.Parse(args)
+	P, err := LoadProgram(*dir, strings.Split(*pkg, ","))
+	if err != nil {
+		fmt.Fprintln(os.Stderr, err)
+		os.Exit(2)
+	}
+	C, err := LoadContracts(strings.Split(*cdirs, ",")...)
+	if err != nil {
+		fmt.Fprintln(os.Stderr, err)
+		os.Exit(2)
+	}
+	os.MkdirAll(*out, 0o755)
+	want := map[string]bool{}
+	for _, f := range strings.Split(*files, ",") {
+		if f != "" {
+			want[f] = true
+		}
+	}
+	var fns []string
+	for name, fn := range P.funcs {
+		if fn.Pkg == nil || len(fn.Blocks) == 0 || fn.Synthetic != "" {
+			continue
+		}
+		inPkg := false
+		for _, sp := range P.pkgs {
+			if fn.Pkg == sp {
+				inPkg = true
+			}
+		}
+		if !inPkg {
+			continue
+		}
+		pos := P.prog.Fset.Position(fn.Pos())
+		if len(want) > 0 && !want[filepathBase(pos.Filename)] {
+			continue
+		}
+		fns = append(fns, name)
+	}
+	sort.Strings(fns)
+	cfg := &Config{InlineMax: 1}
+	totalOK, total, outside := 0, 0, 0
+	for _, name := range fns {
+		fn := P.funcs[name]
+		fc := (&Engine{contracts: C}).lookupContract(fn)
+		t1 := time.Now()
+		res := VerifyFunction(P, C, fn, fc, cfg)
+		var obs []*Obligation
+		for _, o := range res.Obs {
+			if strings.HasPrefix(o.Kind, "safety/") {
+				obs = append(obs, o)
+			}
+		}
+		SolveAll(obs, *out, *timeout, *workers)
+		nok := 0
+		for _, o := range obs {
+			if o.OK() {
+				nok++
+			}
+		}
+		status := ""
+		if res.Err != "" {
+			status = "OUTSIDE: " + res.Err
+			outside++
+		}
+		totalOK += nok
+		total += len(obs)
+		fmt.Printf("%-64s %3d/%3d %5.1fs %s\n", shortName(name), nok, len(obs), time.Since(t1).Seconds(), status)
+		if *verbose {
+			for _, o := range obs {
+				if !o.OK() {
+					fmt.Printf("      %-8s %-28s %s [%s]\n", o.Result, strings.TrimPrefix(o.Name, o.Func+"/"), o.Pos, o.Desc)
+				}
+			}
+		}
+	}
+	fmt.Printf("sweep: %d functions (%d outside subset), %d/%d safety obligations discharged\n", len(fns), outside, totalOK, total)
+}
+
+func filepathBase(p string) string {
+	if i := strings.LastIndex(p, "/"); i >= 0 {
+		return p[i+1:]
+	}
+	return p
+}
